@@ -402,30 +402,56 @@ def gen_conv_ops(rng):
     return out, tags
 
 
+class _Node:
+    __slots__ = ("eff", "parent")
+
+    def __init__(self, eff, parent):
+        self.eff, self.parent = eff, parent
+
+
+def _multi_node(members, tag):
+    """MultiContext(members, convention=tag): the convention given, else the first member's, else - like every context
+    without one - the PARENT's, the parent being none / the single parent / an implicit multi-context of the parents"""
+    conv = tag if tag is not None else members[0].eff
+    parents = [m.parent for m in members if m.parent is not None]
+    parent = None if not parents else parents[0] if len(parents) == 1 else _multi_node(parents, None)
+    return _Node(conv if conv is not None else (parent.eff if parent is not None else None), parent)
+
+
+def _linked_node(par, linked, tag):
+    """LinkedContext(par, linked, convention=tag): its parent is par, or - when the linked context has ancestors - a
+    linked context over them built with the same arguments"""
+    parent = _linked_node(par, linked.parent, tag) if linked.parent is not None else par
+    return _Node(tag if tag is not None else (parent.eff if parent is not None else None), parent)
+
+
 def effective_conventions(ops, tags):
     """The documented rule, computed by the harness itself: a context created without a convention takes its parent's
-    (MultiContext: its first member's); a child context takes the convention of the context it was created from.
+    (a MultiContext first its first member's); a child context takes the convention of the context it was created from.
     Returns (convention per context, conversion table for the plain contexts)."""
-    eff, table, pid = [], [], 0
+    nodes, table, pid = [], [], 0
     for o in ops:
         if o[0] not in CTORS:
             continue
-        tag = tags[len(eff)]
-        if o[0] in ("plain", "plaindata", "linked"):
-            e = tag if tag is not None else (eff[o[1]] if o[1] is not None else None)
+        tag = tags[len(nodes)]
+        if o[0] in ("plain", "plaindata"):
+            parent = nodes[o[1]] if o[1] is not None else None
+            node = _Node(tag if tag is not None else (parent.eff if parent is not None else None), parent)
+        elif o[0] == "linked":
+            node = _linked_node(nodes[o[1]] if o[1] is not None else None, nodes[o[2]], tag)
         elif o[0] == "multi":
-            e = tag if tag is not None else eff[o[1][0]]
+            node = _multi_node([nodes[i] for i in o[1]], tag)
         else:
-            e = eff[o[1]]
-        eff.append(e)
+            node = _Node(nodes[o[1]].eff, nodes[o[1]])
+        nodes.append(node)
         if o[0] in ("plain", "plaindata", "child"):
-            if e is not None:
+            if node.eff is not None:
                 for a in sorted({n.rstrip("_") for n in FNAMES_Q}):
-                    b = CONV_FNS[e](a)
+                    b = CONV_FNS[node.eff](a)
                     if b != a:
                         table.append((pid, a, b))
             pid += 1
-    return eff, table
+    return [n.eff for n in nodes], table
 
 
 def observe_cv(c, ids):
